@@ -439,7 +439,8 @@ impl<S: AsyncRead + AsyncWrite + Unpin> NoiseSocket<S> {
     /// `[tag, a, b, c, nread, offset, current_frame_size + 1 (0 = None)]` where `tag`/`a`/`b`/`c`
     /// are `0, max_read, 0, 0` for `ReadData`, `1, 0, 0, 0` for `ReadFrameLen`,
     /// `2, 0, 0, 0` for `ProcessNextFrame` without a pending buffer and
-    /// `3, offset, size, frame_size` for `ProcessNextFrame` with a pending buffer.
+    /// `3, offset, size, frame_size` for `ProcessNextFrame` with a pending buffer and
+    /// `4, 0, 0, 0` for `Failed`.
     pub fn verif_read_state(&self) -> [usize; 7] {
         let (tag, a, b, c) = match &self.read_state {
             ReadState::ReadData { max_read } => (0, *max_read, 0, 0),
@@ -451,6 +452,7 @@ impl<S: AsyncRead + AsyncWrite + Unpin> NoiseSocket<S> {
                 size,
                 frame_size,
             } => (3, *offset, *size, *frame_size),
+            ReadState::Failed => (4, 0, 0, 0),
         };
         [
             tag,
